@@ -711,6 +711,7 @@ impl<T: Transport, Env: UtpEnvironment> VirtualSocket<T, Env> {
         let mut sent_count = 0;
 
         let mut message_too_long = None;
+        let mut probe_exceeds_cwnd = None;
 
         // Send the stuff we haven't sent yet, up to sender's window.
         for mut item in self
@@ -718,6 +719,20 @@ impl<T: Transport, Env: UtpEnvironment> VirtualSocket<T, Env> {
             .iter_mut_for_sending(Some(self.last_sent_seq_nr + 1))
         {
             if remaining_cwnd < item.payload_size() {
+                // An MTU probe that was cut while the congestion window was large enough, and
+                // has not been sent since, may not fit the whole window anymore (e.g. after a
+                // loss). It would block everything behind it until the retransmission timer
+                // fires: give it up (not as a failed probe) and re-segment.
+                if item.is_mtu_probe()
+                    && item.send_count() == 0
+                    && item.payload_size()
+                        > self
+                            .congestion_controller
+                            .window()
+                            .min(self.last_remote_window as usize)
+                {
+                    probe_exceeds_cwnd = Some(item.seq_nr());
+                }
                 METRICS.send_window_exhausted.increment(1);
                 trace_every_ms!(100, "remote recv window exhausted");
                 break;
@@ -762,6 +777,14 @@ impl<T: Transport, Env: UtpEnvironment> VirtualSocket<T, Env> {
                     break;
                 }
                 Err(e) => return Err(e),
+            }
+        }
+
+        if let Some(seq_nr) = probe_exceeds_cwnd {
+            if self.user_tx_segments.pop_mtu_probe(seq_nr) {
+                debug!(?seq_nr, "unsent MTU probe exceeds congestion window, will re-segment");
+                self.segment_sizes.disarm_cooldown();
+                self.this_poll.restart = true;
             }
         }
 
